@@ -284,7 +284,7 @@ def run_check(prop, tier):
         known_counts.update(r["known"])
         states.update(r["states"]); nontrivial.update(r["nontrivial"])
         steps += r["steps"]
-        violations.extend(r["violations"])
+        violations.extend(dict(v, hash_seed=int(r["hash_seed"])) for v in r["violations"])
         for k, ex in r["known_examples"].items():
             known_examples.setdefault(k, ex)
 
@@ -338,7 +338,7 @@ def run_check(prop, tier):
         for v in violations:
             if v["sig"] not in seen:
                 seen.add(v["sig"])
-                todo.append(("invariant", v, [hash_seeds[0]]))
+                todo.append(("invariant", v, [v.get("hash_seed", hash_seeds[0])]))
         for v in lock_viol:
             if v["sig"] not in seen:
                 seen.add(v["sig"])
@@ -363,7 +363,8 @@ def run_check(prop, tier):
                   f"in {info['executions']} executions", flush=True)
             print(f"VIOLATION property={prop} replay={path}", flush=True)
             reported.append({"sig": v["sig"], "replay": path})
-            rc = EXIT_VIOLATION if rc == EXIT_OK else rc
+        if reported:
+            rc = EXIT_VIOLATION   # a confirmed, replayable violation outranks a harness error elsewhere
     finally:
         pool.close()
 
